@@ -164,6 +164,7 @@ func c12RefreshWorker(c *Ctx) {
 	logPath := filepath.Join(spec.Dir, "log")
 	gates := map[int]*os.File{}
 	enqueued, refused := 0, 0
+	var enqIDs []int
 	// settled (exact, from the goroutine dump): every Enqueue goroutine of a finished or
 	// refused job is gone (its deferred releases have run), every other one is either
 	// blocked in ResourceSemaphore.Acquire (= the waiting lists) or has its shell running
@@ -178,7 +179,7 @@ func c12RefreshWorker(c *Ctx) {
 				waiting += len(s.Waiting)
 			}
 			refused = 0
-			for i := 0; i < enqueued; i++ {
+			for _, i := range enqIDs {
 				if !started[i] {
 					if _, err := os.Stat(filepath.Join(spec.Dir, fmt.Sprintf("job%d", i), "_errors")); err == nil {
 						refused++
@@ -246,6 +247,7 @@ func c12RefreshWorker(c *Ctx) {
 			res := core.VerifNodeJobReqs(ljm, ljm, nil, fq, true, nil, &jobDef, core.STAGE_TYPE_CHUNK)
 			ljm.Enqueue("/bin/sh", []string{"-c", script}, map[string]string{}, md, &res, fq, 0, 0, false)
 			enqueued++
+			enqIDs = append(enqIDs, st.Job)
 			ok := settle()
 			started, _ := readLog(logPath)
 			switch {
@@ -450,8 +452,19 @@ func c12rFullOffer(k int, sem c12rSem, reservedSeen int64, o *core.VerifRefreshO
 }
 
 // c12rJudge: model comparison and monitors over a worker's step list.
-func c12rJudge(c *Ctx, sp c12rSpec, outs []c12rOut, countHist bool) (v *c12rVerdict, exact, bracketed int, skip string) {
+func c12rJudge(c *Ctx, sp c12rSpec, outs []c12rOut, countHist bool) (vs []*c12rVerdict, exact, bracketed int, skip string) {
 	r := c.Res
+	seen := map[string]bool{}
+	add := func(v *c12rVerdict) {
+		if !seen[v.key] {
+			seen[v.key] = true
+			if v.kind == "property" {
+				vs = append([]*c12rVerdict{v}, vs...) // what the property says first
+			} else {
+				vs = append(vs, v)
+			}
+		}
+	}
 	if len(outs) != len(sp.Steps) {
 		return nil, 0, 0, fmt.Sprintf("worker reported %d of %d steps", len(outs), len(sp.Steps))
 	}
@@ -463,8 +476,8 @@ func c12rJudge(c *Ctx, sp c12rSpec, outs []c12rOut, countHist bool) (v *c12rVerd
 		}
 		for k, s := range o.After {
 			if s.Present && s.Cur > s.Max {
-				return &c12rVerdict{"property", "C12:refresh:size-above-limit",
-					fmt.Sprintf("step %d (%s): %s semaphore CurrentSize()=%d exceeds its limit %d", i, o.Kind, c12rSemNames[k], s.Cur, s.Max), i}, exact, bracketed, ""
+				add(&c12rVerdict{"property", "C12:refresh:size-above-limit",
+					fmt.Sprintf("step %d (%s): %s semaphore CurrentSize()=%d exceeds its limit %d", i, o.Kind, c12rSemNames[k], s.Cur, s.Max), i})
 			}
 		}
 		switch o.Kind {
@@ -484,8 +497,8 @@ func c12rJudge(c *Ctx, sp c12rSpec, outs []c12rOut, countHist bool) (v *c12rVerd
 				if k == 0 && !sp.LimitLoad {
 					// not touched without --limit-loadavg
 					if b, a := o.Before[0], o.After[0]; b.Cur != a.Cur || b.Res != a.Res || len(b.Waiting) != len(a.Waiting) {
-						return &c12rVerdict{"correspondence", "C12:refresh:model-mismatch",
-							fmt.Sprintf("step %d: refreshResources changed the core semaphore without --limit-loadavg: %+v -> %+v", i, b, a), i}, exact, bracketed, ""
+						add(&c12rVerdict{"correspondence", "C12:refresh:model-mismatch",
+							fmt.Sprintf("step %d: refreshResources changed the core semaphore without --limit-loadavg: %+v -> %+v", i, b, a), i})
 					}
 					continue
 				}
@@ -517,19 +530,22 @@ func c12rJudge(c *Ctx, sp c12rSpec, outs []c12rOut, countHist bool) (v *c12rVerd
 				c1, r1, q1, ok1 := parse(reps[2*j])
 				c2, r2, q2, ok2 := parse(reps[2*j+1])
 				if !ok1 || !ok2 {
-					return &c12rVerdict{"correspondence", "C12:refresh:driver-bad-op", "driver reply " + reps[2*j], i}, exact, bracketed, ""
+					add(&c12rVerdict{"correspondence", "C12:refresh:driver-bad-op", "driver reply " + reps[2*j], i})
 				}
 				a := o.After[k]
 				name := c12rSemNames[k]
-				if c1 == c2 && r1 == r2 && q1 == q2 {
+				// The user's process count (all users of this uid on the machine, other agents'
+				// processes included) can move and move back between the two reads: the process
+				// semaphore's size is only checked to be plausible.
+				if k != 3 && c1 == c2 && r1 == r2 && q1 == q2 {
 					exact++
 					if countHist {
 						r.hist("refresh_comparisons_exact_" + name)
 					}
 					if a.Cur != c1 || a.Res != r1 || len(a.Waiting) != q1 {
-						return &c12rVerdict{"correspondence", "C12:refresh:model-mismatch",
+						add(&c12rVerdict{"correspondence", "C12:refresh:model-mismatch",
 							fmt.Sprintf("step %d: after refreshResources the %s semaphore is CurrentSize=%d Reserved=%d QueueLength=%d; the model (same answer for the observations before and after the call) says %d/%d/%d",
-								i, name, a.Cur, a.Res, len(a.Waiting), c1, r1, q1), i}, exact, bracketed, ""
+								i, name, a.Cur, a.Res, len(a.Waiting), c1, r1, q1), i})
 					}
 				} else {
 					bracketed++
@@ -541,10 +557,17 @@ func c12rJudge(c *Ctx, sp c12rSpec, outs []c12rOut, countHist bool) (v *c12rVerd
 						lo, hi = hi, lo
 					}
 					slack := hi - lo // the environment may have moved that much once more in between
+					if k == 3 {
+						slack += 512
+					}
 					if a.Cur < lo-slack || a.Cur > hi+slack {
-						return &c12rVerdict{"correspondence", "C12:refresh:model-mismatch",
-							fmt.Sprintf("step %d: after refreshResources the %s semaphore has CurrentSize=%d, outside what the model gives for the observations before (%d) and after (%d) the call",
-								i, name, a.Cur, c1, c2), i}, exact, bracketed, ""
+						add(&c12rVerdict{"correspondence", "C12:refresh:model-mismatch",
+							fmt.Sprintf("step %d: after refreshResources the %s semaphore has CurrentSize=%d, outside what the model gives for the observations before (%d) and after (%d) the call (tolerance %d)",
+								i, name, a.Cur, c1, c2, slack), i})
+					}
+					if k == 3 && (a.Res != r1 || len(a.Waiting) != q1) && (a.Res != r2 || len(a.Waiting) != q2) {
+						add(&c12rVerdict{"correspondence", "C12:refresh:model-mismatch",
+							fmt.Sprintf("step %d: after refreshResources the %s semaphore has Reserved=%d QueueLength=%d; model %d/%d", i, name, a.Res, len(a.Waiting), r1, q1), i})
 					}
 				}
 			}
@@ -556,9 +579,9 @@ func c12rJudge(c *Ctx, sp c12rSpec, outs []c12rOut, countHist bool) (v *c12rVerd
 				seen := o.Before[k].Res
 				if c12rFullOffer(k, a, seen, o.ObsBefore, sp.LimitLoad) && c12rFullOffer(k, a, seen, o.ObsAfter, sp.LimitLoad) &&
 					a.Waiting[0] <= a.Max-a.Res {
-					return &c12rVerdict{"property", "C12:refresh:fitting-job-parked",
+					add(&c12rVerdict{"property", "C12:refresh:fitting-job-parked",
 						fmt.Sprintf("step %d: after refreshResources a request for %d waits on the %s semaphore although it fits maxSize %d - Reserved %d and the OS offers the whole limit (CurrentSize()=%d)",
-							i, a.Waiting[0], c12rSemNames[k], a.Max, a.Res, a.Cur), i}, exact, bracketed, ""
+							i, a.Waiting[0], c12rSemNames[k], a.Max, a.Res, a.Cur), i})
 				}
 			}
 			lastRefresh = o
@@ -571,15 +594,15 @@ func c12rJudge(c *Ctx, sp c12rSpec, outs []c12rOut, countHist bool) (v *c12rVerd
 					seen := lastRefresh.Before[k].Res
 					if c12rFullOffer(k, a, seen, lastRefresh.ObsBefore, sp.LimitLoad) && c12rFullOffer(k, a, seen, lastRefresh.ObsAfter, sp.LimitLoad) &&
 						lastRefresh.Before[k].Res == o.Before[k].Res && a.Waiting[0] <= a.Max-a.Res {
-						return &c12rVerdict{"property", "C12:refresh:fitting-job-parked",
+						add(&c12rVerdict{"property", "C12:refresh:fitting-job-parked",
 							fmt.Sprintf("step %d: job %d (%s) was parked on the %s semaphore right after a refresh: it asks for %d, maxSize %d - Reserved %d = %d, the OS offers the whole limit, but CurrentSize()=%d",
-								i, o.Job, sp.Steps[i].What, c12rSemNames[k], a.Waiting[0], a.Max, a.Res, a.Max-a.Res, a.Cur), i}, exact, bracketed, ""
+								i, o.Job, sp.Steps[i].What, c12rSemNames[k], a.Waiting[0], a.Max, a.Res, a.Max-a.Res, a.Cur), i})
 					}
 				}
 			}
 		}
 	}
-	return nil, exact, bracketed, ""
+	return vs, exact, bracketed, ""
 }
 
 func runC12Refresh(c *Ctx) {
@@ -606,8 +629,8 @@ func runC12Refresh(c *Ctx) {
 		}
 		sp := c12rGen(c, maxGB)
 		outs, cmdline, err := c12rRun(c, sp)
-		v, exact, bracketed, skip := c12rJudge(c, sp, outs, true)
-		if v == nil && (skip != "" || err != nil) {
+		vs, _, _, skip := c12rJudge(c, sp, outs, true)
+		if len(vs) == 0 && (skip != "" || err != nil) {
 			r.hist("refresh_scenarios_not_judged")
 			r.note("refreshResources scenario not judged: %s %v", skip, err)
 			continue
@@ -625,57 +648,70 @@ func runC12Refresh(c *Ctx) {
 		r.count(fmt.Sprintf("refresh|%d|%d|%d|%v|%s", sp.MaxCores, sp.MaxMemGB, sp.MaxVmemMB, sp.LimitLoad, sj), nontrivial)
 		r.hist("refresh_scenarios")
 		r.Histogram["refresh_steps"] += len(sp.Steps)
-		_ = exact
-		_ = bracketed
 		if i%11 == 0 {
 			r.sample(map[string]interface{}{"scenario": sp, "worker_steps": outs})
 		}
-		if v == nil {
-			continue
+		for _, v := range vs {
+			if reported[v.key] >= 2 {
+				continue
+			}
+			reported[v.key]++
+			c12rReport(c, sp, v, cmdline)
 		}
-		if reported[v.key] >= 2 {
-			continue
+	}
+}
+
+func c12rHas(vs []*c12rVerdict, key string) *c12rVerdict {
+	for _, v := range vs {
+		if v.key == key {
+			return v
 		}
-		reported[v.key]++
-		// once more, alone, in a fresh worker
-		outs2, _, _ := c12rRun(c, sp)
-		v2, _, _, _ := c12rJudge(c, sp, outs2, false)
-		if v2 == nil || v2.key != v.key {
-			r.note("a refreshResources disagreement (%s: %s) did not reproduce in a fresh worker; not reported", v.key, v.what)
-			continue
-		}
-		// shrink: drop steps (renumbering nothing: job ids stay) while the same key is reported
-		min := sp
-		trials := 0
-		for changed := true; changed && trials < 14; {
-			changed = false
-			for j := 0; j < len(min.Steps) && trials < 14; j++ {
-				t := min
-				t.Steps = append(append([]c12rStep{}, min.Steps[:j]...), min.Steps[j+1:]...)
-				trials++
-				o3, _, _ := c12rRun(c, t)
-				if v3, _, _, _ := c12rJudge(c, t, o3, false); v3 != nil && v3.key == v.key {
-					min = t
-					changed = true
-					j--
-				}
+	}
+	return nil
+}
+
+// c12rReport: once more alone in a fresh worker, shrink (drop steps while the same key is
+// reported), report.
+func c12rReport(c *Ctx, sp c12rSpec, v *c12rVerdict, cmdline string) {
+	r := c.Res
+	check := func(t c12rSpec) (*c12rVerdict, []c12rOut) {
+		o, _, _ := c12rRun(c, t)
+		vs, _, _, _ := c12rJudge(c, t, o, false)
+		return c12rHas(vs, v.key), o
+	}
+	v2, outs2 := check(sp)
+	if v2 == nil {
+		r.note("a refreshResources disagreement (%s: %s) did not reproduce in a fresh worker; not reported", v.key, v.what)
+		return
+	}
+	min := sp
+	trials := 0
+	for changed := true; changed && trials < 14; {
+		changed = false
+		for j := 0; j < len(min.Steps) && trials < 14; j++ {
+			t := min
+			t.Steps = append(append([]c12rStep{}, min.Steps[:j]...), min.Steps[j+1:]...)
+			trials++
+			if v3, _ := check(t); v3 != nil {
+				min = t
+				changed = true
+				j--
 			}
 		}
-		outsM, _, _ := c12rRun(c, min)
-		vM, _, _, _ := c12rJudge(c, min, outsM, false)
-		if vM == nil || vM.key != v.key {
-			min, outsM, vM = sp, outs2, v2
-		}
-		min.Dir = ""
-		viol := Violation{Kind: vM.kind, Key: vM.key, What: "LocalJobManager.refreshResources: " + vM.what,
-			Input: map[string]interface{}{"worker_command": cmdline, "scenario": min,
-				"note": "the worker is this harness binary re-executed with no other children: the process tree below it is exactly the jobs of the scenario"},
-			Impl: outsM}
-		if vM.kind == "correspondence" {
-			viol.Broken = "correspondence C12.refresh (Martian.SemaphoreRefresh + Martian.Semaphore.step vs LocalJobManager.refreshResources)"
-		} else {
-			viol.Expect = "Props.C12.refresh_never_parks_a_fitting_job / limit_job_granted_after_refresh: with the OS offering the whole limit and the usage below mrp within the reservations, whoever fits maxSize - Reserved is granted"
-		}
-		r.violate(viol)
 	}
+	vM, outsM := check(min)
+	if vM == nil {
+		min, outsM, vM = sp, outs2, v2
+	}
+	min.Dir = ""
+	viol := Violation{Kind: vM.kind, Key: vM.key, What: "LocalJobManager.refreshResources: " + vM.what,
+		Input: map[string]interface{}{"worker_command": cmdline, "scenario": min,
+			"note": "the worker is this harness binary re-executed with no other children: the process tree below it is exactly the jobs of the scenario"},
+		Impl: outsM}
+	if vM.kind == "correspondence" {
+		viol.Broken = "correspondence C12.refresh (Martian.SemaphoreRefresh + Martian.Semaphore.step vs LocalJobManager.refreshResources)"
+	} else {
+		viol.Expect = "Props.C12.refresh_never_parks_a_fitting_job / limit_job_granted_after_refresh: with the OS offering the whole limit and the usage below mrp within the reservations, whoever fits maxSize - Reserved is granted"
+	}
+	r.violate(viol)
 }
